@@ -475,6 +475,7 @@ pub struct WriteRunStats {
     pub reopen_problems: Vec<String>,
     /// value of the write-side call counter at the start of every API call attempt
     pub op_starts: Vec<u64>,
+    pub reopen_skipped_after_failed_namespace_call: u64,
     pub durable_checks: u64,
     pub durable_unreadable: u64,
 }
@@ -513,6 +514,10 @@ pub fn run_write_script(version: u8, max_buf: Option<u32>, script: &[WOp], ctl: 
     // stream name index -> bytes that a successful flush made durable and that nothing has
     // touched since (no write / set_len / create / remove on that stream, attempted or not)
     let mut durable: BTreeMap<usize, BTreeMap<u64, u8>> = BTreeMap::new();
+    // a fault fired inside a call that rewrites directory links (create/remove of an entry):
+    // the directory in the file may then disagree with the one in memory (e.g. a removed
+    // entry still linked on disk), so what a name means in the raw bytes is no longer judged
+    let mut namespace_call_failed = false;
     let label = |ctl: &Arc<Mutex<Ctl>>| -> u64 {
         let mut g = ctl.lock().unwrap();
         g.api_call += 1;
@@ -799,7 +804,10 @@ pub fn run_write_script(version: u8, max_buf: Option<u32>, script: &[WOp], ctl: 
                         if let Err(e) = &reopened {
                             st.reopen_problems.push(format!("open: {}", normalise_msg(&e.to_string())));
                         }
-                        if let Ok(mut again) = reopened {
+                        if namespace_call_failed {
+                            st.reopen_skipped_after_failed_namespace_call += 1;
+                        }
+                        if let (Ok(mut again), false) = (reopened, namespace_call_failed) {
                             let rb = guard("readback_reopened", || -> std::io::Result<Vec<u8>> {
                                 let mut f = again.open_stream(WNAMES[name])?;
                                 let mut v = Vec::new();
@@ -852,6 +860,9 @@ pub fn run_write_script(version: u8, max_buf: Option<u32>, script: &[WOp], ctl: 
                 }
                 Some(Err(e)) => {
                     trace.push(format!("{:?} -> Err({:?}: {}) [attempt {}]{}", op, e.kind(), e, attempt, if fired_here { " [fault fired in this call]" } else { "" }));
+                    if fired_here && matches!(op, WOp::CreateStorage { .. } | WOp::RemoveStorage { .. } | WOp::CreateStream { .. } | WOp::RemoveStream { .. } | WOp::RemoveAll { .. }) {
+                        namespace_call_failed = true;
+                    }
                     // C08's clause under faults: if the failed set_len made the stream longer
                     // after all, the bytes gained must still read as zero
                     if let Some((name, before)) = grow_failed {
